@@ -42,7 +42,8 @@ Qed.
 (* ---------- invariants *)
 Definition sinv (s : scope) : Prop := dlen s < USIZE.   (* Rust slices are at most isize::MAX long *)
 Definition cinv (c : ctxt) : Prop := 0 <= off c <= dlen (sc c) /\ sinv (sc c).
-Definition ainv (a : rarray) : Prop := ty_size (a_ty a) <= a_stride a.
+Definition ainv (a : rarray) : Prop :=
+  0 <= a_len a /\ 0 < ty_size (a_ty a) <= a_stride a /\ dlen (a_sc a) = a_len a * a_stride a.
 Definition rinv (st : rstate) : Prop :=
   sinv (scp st) /\ cinv (cur st) /\ ainv (arr st) /\ sinv (a_sc (arr st)).
 
@@ -120,19 +121,19 @@ Qed.
 Lemma offset_length_not_oob m s o l : offset_length m s o l <> OOB.
 Proof.
   unfold offset_length. destruct ((o <? dlen s) || (l =? 0)); [|congruence].
-  destruct (l <=? _); [|congruence]. apply bind_not_oob; [apply uadd_not_oob|]. congruence.
+  destruct (l <=? _); [|congruence]. apply bind_not_oob; [apply wadd_not_oob|]. congruence.
 Qed.
 
 (* offset_length succeeds exactly on in-range windows (given no overflow of the bookkeeping base) *)
 Lemma offset_length_complete m s o l :
-  0 <= o -> 0 <= l -> o + l <= dlen s -> base s + o < USIZE ->
+  0 <= o -> 0 <= l -> o + l <= dlen s -> 0 <= base s -> base s + o < USIZE ->
   offset_length m s o l = Ok {| base := base s + o; data := take l (drop o (data s)) |}.
 Proof.
-  intros Ho Hl Hle Hb. unfold offset_length, dlen in *.
+  intros Ho Hl Hle Hb0 Hb. unfold offset_length, dlen in *.
   replace ((o <? len (data s)) || (l =? 0)) with true by lia.
   rewrite slice_from_drop by lia.
   rewrite len_drop by lia. replace (l <=? len (data s) - o) with true by lia.
-  unfold uadd. replace (base s + o <? USIZE) with true by lia. reflexivity.
+  unfold wadd. rewrite Z.mod_small by lia. reflexivity.
 Qed.
 
 Lemma offset_length_rejects m s o l :
@@ -348,8 +349,8 @@ Definition op_wf (o : op) : Prop :=
   | OScopeOffsetLength x l => arg_ok x /\ arg_ok l
   | OReadScope l | OReadSlice l => arg_ok l
   | OReadUntilNibble n => 0 <= n < 256
-  | OReadArray _ n | OReadArrayUpto _ n => arg_ok n
-  | OReadArrayStride _ n s => arg_ok n /\ arg_ok s
+  | OReadArray t n | OReadArrayUpto t n => arg_ok n /\ 0 < ty_size t
+  | OReadArrayStride t n s => arg_ok n /\ arg_ok s /\ 0 < ty_size t
   | OArrGet i | OArrReadItem i => arg_ok i
   | _ => True
   end.
@@ -372,7 +373,7 @@ Proof.
 Qed.
 
 Lemma scope_offset_not_oob m s o : scope_offset m s o <> OOB.
-Proof. unfold scope_offset. apply bind_not_oob; [apply uadd_not_oob|congruence]. Qed.
+Proof. unfold scope_offset. apply bind_not_oob; [apply wadd_not_oob|congruence]. Qed.
 
 Lemma cinv_new s : sinv s -> cinv (ctxt_new s).
 Proof. unfold cinv, sinv, ctxt_new; cbn [off sc]. pose proof (dlen_nonneg s). intros; lia. Qed.
@@ -396,51 +397,47 @@ Proof.
   intros [= <- <-]. unfold cinv; cbn [sc off]. split; [lia|exact Hs].
 Qed.
 
-Lemma read_array_inv m t c n a c' :
-  cinv c -> 0 <= n -> read_array m t c n = Ok (a, c') ->
-  cinv c' /\ ainv a /\ sinv (a_sc a) /\ sc c' = sc c /\ a_len a = n /\ a_stride a = ty_size t /\ a_ty a = t
-  /\ exists sz, umul m n (ty_size t) = Ok sz /\ dlen (a_sc a) = sz /\ off c' = off c + sz
-     /\ data (a_sc a) = take sz (drop (off c) (data (sc c))).
-Proof.
-  intros Hc Hn. unfold read_array. intros H.
-  apply bind_ok in H. destruct H as [sz [Hsz H]].
-  apply bind_ok in H. destruct H as [[s c1] [Hrs H]]. injection H as <- <-.
-  pose proof (ty_size_nonneg t) as Hts.
-  pose proof (umul_ok_range _ _ _ _ Hn Hts Hsz) as Hr.
-  destruct (read_scope_inv _ _ _ _ _ Hc (proj1 Hr) Hrs) as [H1 [H2 [H3 [H4 H5]]]].
-  cbn [a_sc a_len a_stride a_ty]. unfold ainv, sinv; cbn [a_ty a_stride].
-  repeat (split; [solve [auto|lia]|]).
-  exists sz. repeat (split; [solve [auto|lia]|]). auto.
-Qed.
-
 Lemma read_array_stride_inv m t c n st a c' :
-  cinv c -> 0 <= n -> 0 <= st -> read_array_stride m t c n st = Ok (a, c') ->
+  cinv c -> 0 <= n -> 0 <= st -> 0 < ty_size t -> read_array_stride m t c n st = Ok (a, c') ->
   cinv c' /\ ainv a /\ sinv (a_sc a) /\ sc c' = sc c /\ a_len a = n /\ a_stride a = st /\ a_ty a = t
-  /\ ty_size t <= st
-  /\ exists sz, umul m n st = Ok sz /\ dlen (a_sc a) = sz /\ off c' = off c + sz
-     /\ data (a_sc a) = take sz (drop (off c) (data (sc c))).
+  /\ ty_size t <= st /\ n * st < USIZE /\ off c' = off c + n * st
+  /\ data (a_sc a) = take (n * st) (drop (off c) (data (sc c))).
 Proof.
-  intros Hc Hn Hst. unfold read_array_stride. destruct (st <? ty_size t) eqn:E; [discriminate|].
+  intros Hc Hn Hst Ht. unfold read_array_stride. destruct (st <? ty_size t) eqn:E; [discriminate|].
   intros H.
   apply bind_ok in H. destruct H as [sz [Hsz H]].
   apply bind_ok in H. destruct H as [[s c1] [Hrs H]]. injection H as <- <-.
-  pose proof (umul_ok_range _ _ _ _ Hn Hst Hsz) as Hr.
-  destruct (read_scope_inv _ _ _ _ _ Hc (proj1 Hr) Hrs) as [H1 [H2 [H3 [H4 H5]]]].
-  cbn [a_sc a_len a_stride a_ty]. unfold ainv, sinv; cbn [a_ty a_stride].
-  repeat (split; [solve [auto|lia]|]).
-  exists sz. repeat (split; [solve [auto|lia]|]). auto.
+  apply cmul_ok in Hsz. destruct Hsz as [-> Hlt].
+  assert (0 <= n * st) as Hnn by nia.
+  destruct (read_scope_inv _ _ _ _ _ Hc Hnn Hrs) as [H1 [H2 [H3 [H4 H5]]]].
+  cbn [a_sc a_len a_stride a_ty]. unfold ainv, sinv; cbn [a_sc a_len a_stride a_ty].
+  repeat (split; [solve [auto|lia]|]). auto.
+Qed.
+
+Lemma read_array_is_stride m t c n :
+  read_array m t c n = read_array_stride m t c n (ty_size t).
+Proof.
+  unfold read_array, read_array_stride. replace (ty_size t <? ty_size t) with false by lia. reflexivity.
+Qed.
+
+Lemma read_array_inv m t c n a c' :
+  cinv c -> 0 <= n -> 0 < ty_size t -> read_array m t c n = Ok (a, c') ->
+  cinv c' /\ ainv a /\ sinv (a_sc a).
+Proof.
+  intros Hc Hn Ht H. rewrite read_array_is_stride in H.
+  apply read_array_stride_inv in H; auto; [tauto|lia].
 Qed.
 
 Lemma read_array_not_oob m t c n : read_array m t c n <> OOB.
 Proof.
-  unfold read_array. apply bind_not_oob; [apply umul_not_oob|]. intros sz _.
+  unfold read_array. apply bind_not_oob; [apply cmul_not_oob|]. intros sz _.
   apply bind_not_oob; [apply read_scope_not_oob|]. intros [s c'] _. congruence.
 Qed.
 
 Lemma read_array_stride_not_oob m t c n st : read_array_stride m t c n st <> OOB.
 Proof.
   unfold read_array_stride. destruct (st <? ty_size t); [congruence|].
-  apply bind_not_oob; [apply umul_not_oob|]. intros sz _.
+  apply bind_not_oob; [apply cmul_not_oob|]. intros sz _.
   apply bind_not_oob; [apply read_scope_not_oob|]. intros [s c'] _. congruence.
 Qed.
 
@@ -510,11 +507,12 @@ Proof.
   apply bind_not_oob; [apply IH|]. congruence.
 Qed.
 
-Lemma read_items_not_oob m a idxs : sinv (a_sc a) -> read_items m a idxs <> OOB.
+Lemma read_items_not_oob fuel m a : sinv (a_sc a) -> forall i, read_items_from fuel m a i <> OOB.
 Proof.
-  intros Hs. induction idxs as [|i r IH]; cbn [read_items]; [congruence|].
+  intros Hs. induction fuel as [|f IH]; intros i; cbn [read_items_from];
+    destruct (a_len a <=? i); try congruence.
   apply bind_not_oob; [apply arr_read_item_not_oob; assumption|]. intros v _.
-  apply bind_not_oob; [exact IH|]. congruence.
+  apply bind_not_oob; [apply IH|]. congruence.
 Qed.
 
 Lemma bsearch_not_oob fuel m a f : ainv a -> forall size left right,
@@ -537,7 +535,7 @@ Proof.
     cbn [scp cur arr sc off data a_sc a_ty a_stride].
   unfold sinv, dlen, scope_new; cbn [data].
   change (len (@nil Z)) with 0. change (ty_size [PU8]) with 1. unfold USIZE in *.
-  repeat split; lia.
+  cbn [a_len]. repeat split; lia.
 Qed.
 
 Lemma read_until_nibble_not_oob m c n : read_until_nibble m c n <> OOB.
@@ -612,13 +610,14 @@ Proof.
   - (* OReadArray *)
     pose proof (read_array_not_oob m t (cur st) n).
     destruct (read_array m t (cur st) n) as [[a c]| | |] eqn:E; cbn [fst snd]; try same_state.
-    split; [|congruence]. apply (read_array_inv _ _ _ _ _ _ Hc (proj1 Hwf)) in E.
-    destruct E as [E1 [E2 [E3 _]]]. new_state.
+    split; [|congruence]. apply (read_array_inv _ _ _ _ _ _ Hc (proj1 (proj1 Hwf)) (proj2 Hwf)) in E.
+    destruct E as [E1 [E2 E3]]. new_state.
   - (* OReadArrayStride *)
     pose proof (read_array_stride_not_oob m t (cur st) n stride).
     destruct (read_array_stride m t (cur st) n stride) as [[a c]| | |] eqn:E; cbn [fst snd]; try same_state.
     split; [|congruence].
-    apply (read_array_stride_inv _ _ _ _ _ _ _ Hc (proj1 (proj1 Hwf)) (proj1 (proj2 Hwf))) in E.
+    destruct Hwf as [Hw1 [Hw2 Hw3]].
+    apply (read_array_stride_inv _ _ _ _ _ _ _ Hc (proj1 Hw1) (proj1 Hw2) Hw3) in E.
     destruct E as [E1 [E2 [E3 _]]]. new_state.
   - (* OReadArrayUpto *)
     assert (read_array_upto_hack m t (cur st) n <> OOB) as Hno.
@@ -634,8 +633,8 @@ Proof.
     pose proof (ty_size_nonneg t) as Hts.
     assert (0 <= Z.min n (av / ty_size t)) as Hmin.
     { assert (0 <= av / ty_size t) by (apply Z.div_pos; lia). lia. }
-    apply (read_array_inv _ _ _ _ _ _ Hc Hmin) in E.
-    destruct E as [E1 [E2 [E3 _]]]. new_state.
+    apply (read_array_inv _ _ _ _ _ _ Hc Hmin (proj2 Hwf)) in E.
+    destruct E as [E1 [E2 E3]]. new_state.
   - (* OArrLen *) cbn [fst snd]. same_state.
   - (* OArrGet *) cbn [fst snd]. split; [apply rinv_intro; assumption|].
     apply bind_not_oob; [apply arr_get_not_oob; assumption|congruence].
@@ -645,7 +644,7 @@ Proof.
     apply bind_not_oob; [|congruence]. unfold arr_last. destruct (a_len (arr st) <? 1); [congruence|].
     apply arr_get_not_oob; assumption.
   - (* OArrToVec *) cbn [fst snd]. split; [apply rinv_intro; assumption|].
-    apply bind_not_oob; [|congruence]. apply iter_collect_not_oob. exact Ha.
+    apply bind_not_oob; [|congruence]. apply iter_collect_not_oob. unfold ainv in Ha; lia.
   - (* OArrSizeHint *) cbn [fst snd]. split; [apply rinv_intro; assumption|].
     apply bind_not_oob; [|congruence]. unfold iter_size_hint. destruct (_ =? 0); congruence.
   - (* OArrReadToVec *) cbn [fst snd]. split; [apply rinv_intro; assumption|].
@@ -669,7 +668,8 @@ Qed.
 (* ---------- arrays expose exactly the items of their window, in order *)
 Definition window_ok (a : rarray) : Prop :=
   0 <= a_len a /\ (0 < ty_size (a_ty a) <= a_stride a /\ a_stride a < USIZE) /\
-  dlen (a_sc a) = a_len a * a_stride a /\ base (a_sc a) + dlen (a_sc a) < USIZE /\
+  dlen (a_sc a) = a_len a * a_stride a /\
+  (0 <= base (a_sc a) /\ base (a_sc a) + dlen (a_sc a) < USIZE) /\
   dlen (a_sc a) < USIZE /\ bytes_ok (data (a_sc a)) = true.
 
 (* the i-th item: the first size bytes of the i-th stride-sized cell of the window *)
@@ -703,7 +703,7 @@ Proof.
   intros [Hl [Hsz [Hw [Hb [Hs Hbytes]]]]] Hi. unfold iter_next.
   assert (0 <= idx * a_stride a <= dlen (a_sc a)) as Ho by nia.
   unfold umul. replace (idx * a_stride a <? USIZE) with true by lia. cbn [bind].
-  unfold scope_offset, uadd. replace (base (a_sc a) + idx * a_stride a <? USIZE) with true by lia.
+  unfold scope_offset, wadd.
   cbn [bind]. rewrite slice_from_drop by (unfold dlen in *; lia).
   unfold check_avail, checked_add, ctxt_new; cbn [off sc].
   replace (0 + a_stride a <? USIZE) with true by lia.
@@ -796,45 +796,268 @@ Lemma arr_binary_search_spec m a f :
   window_ok a -> sorted_wrt f a ->
   exists r, arr_binary_search m a f = Ok r /\ bs_post f a r.
 Proof.
-  intros Hw Hs. unfold arr_binary_search. pose proof Hw as [Hl Hrest].
+  intros Hw Hs. unfold arr_binary_search. pose proof Hw as [Hl [[Hsz Hst] [Hd Hrest]]].
+  replace (a_len a <=? dlen (a_sc a)) with true by nia.
   apply bsearch_spec; try lia; auto.
 Qed.
 
-Lemma read_scope_base m c l s c' :
-  cinv c -> 0 <= l -> base (sc c) + dlen (sc c) < USIZE ->
-  read_scope m c l = Ok (s, c') -> base s = base (sc c) + off c.
+Lemma ainv_window_ok a :
+  ainv a -> sinv (a_sc a) -> 0 <= base (a_sc a) -> base (a_sc a) + dlen (a_sc a) < USIZE ->
+  a_stride a < USIZE -> bytes_ok (data (a_sc a)) = true -> window_ok a.
+Proof. unfold ainv, sinv, window_ok. intros; repeat split; try tauto; lia. Qed.
+
+(* ---------- totality: on every reachable state every operation returns a value or an error —
+   it never panics (unwrap on an in-range window, arithmetic within usize, fuel sufficient) *)
+Definition defined {A} (x : outcome A) : Prop := (exists a, x = Ok a) \/ (exists e, x = Err e).
+
+Lemma defined_ok {A} (a : A) : defined (Ok a).
+Proof. left; eauto. Qed.
+Lemma defined_err {A} e : defined (@Err A e).
+Proof. right; eauto. Qed.
+Lemma defined_bind {A B} (x : outcome A) (f : A -> outcome B) :
+  defined x -> (forall a, x = Ok a -> defined (f a)) -> defined (bind x f).
+Proof. intros [[a ->]|[e ->]] Hf; cbn; [apply Hf; reflexivity|apply defined_err]. Qed.
+
+Lemma offset_length_defined m s o l : defined (offset_length m s o l).
 Proof.
-  intros [Hc Hs] Hl Hb. unfold read_scope.
-  destruct (offset_length m (sc c) (off c) l) eqn:E; try discriminate.
-  intros H. apply bind_ok in H. destruct H as [o' [_ H]]. injection H as <- _.
-  unfold offset_length in E.
-  destruct ((off c <? dlen (sc c)) || (l =? 0)); [|discriminate].
-  destruct (l <=? len (slice_from (data (sc c)) (off c))); [|discriminate].
-  unfold uadd in E. replace (base (sc c) + off c <? USIZE) with true in E by lia.
-  cbn [bind] in E. injection E as <-. reflexivity.
+  unfold offset_length. destruct ((o <? dlen s) || (l =? 0)); [|apply defined_err].
+  destruct (l <=? _); [|apply defined_err]. unfold wadd; cbn [bind]. apply defined_ok.
 Qed.
 
-(* windows built by read_array_stride (read_array is the case stride = size) without
-   arithmetic overflow satisfy window_ok and cover exactly the next n*stride bytes *)
-Lemma read_array_stride_window m t c n st a c' :
-  cinv c -> bytes_ok (data (sc c)) = true -> base (sc c) + dlen (sc c) < USIZE ->
-  0 <= n -> 0 < ty_size t -> 0 <= st < USIZE -> n * st < USIZE ->
-  read_array_stride m t c n st = Ok (a, c') ->
-  window_ok a /\ data (a_sc a) = take (n * st) (drop (off c) (data (sc c)))
-  /\ off c' = off c + n * st /\ a_len a = n /\ a_stride a = st /\ a_ty a = t.
+Lemma offset_length_succeeds m s o l :
+  0 <= o -> 0 <= l -> o + l <= dlen s ->
+  exists s', offset_length m s o l = Ok s' /\ dlen s' = l.
 Proof.
-  intros Hc Hb Hbase Hn Ht Hst Hov H.
-  pose proof H as H'. apply read_array_stride_inv in H'; auto; [|lia].
-  destruct H' as [H1 [H2 [H3 [H4 [H5 [H6 [H7 [H8 [sz [Hsz [Hd [Ho Hdata]]]]]]]]]]]].
-  unfold umul in Hsz. replace (n * st <? USIZE) with true in Hsz by lia. injection Hsz as <-.
-  split; [|repeat (split; [assumption|]); assumption].
-  unfold read_array_stride in H. destruct (st <? ty_size t); [discriminate|].
-  unfold umul in H. replace (n * st <? USIZE) with true in H by lia. cbn [bind] in H.
-  apply bind_ok in H. destruct H as [[s c1] [Hrs Ha]]. injection Ha as <- <-. cbn [a_sc a_len a_stride a_ty] in *.
-  assert (0 <= n * st) as Hnn by nia.
-  pose proof (read_scope_base _ _ _ _ _ Hc Hnn Hbase Hrs) as Hbs.
-  destruct Hc as [Hc1 Hc2]. destruct H1 as [H1a H1b]. rewrite H4 in *.
-  unfold window_ok; cbn [a_sc a_len a_stride a_ty]. unfold sinv in *.
-  repeat split; try lia.
-  rewrite Hdata. apply bytes_ok_take, bytes_ok_drop, Hb.
+  intros Ho Hl Hle.
+  destruct (offset_length_defined m s o l) as [[s' H]|[e H]].
+  - exists s'. split; [exact H|]. eapply offset_length_dlen'; eauto.
+  - exfalso. unfold offset_length, dlen in *.
+    replace ((o <? len (data s)) || (l =? 0)) with true in H by lia.
+    rewrite slice_from_drop in H by lia. rewrite len_drop in H by lia.
+    replace (l <=? len (data s) - o) with true in H by lia. discriminate.
+Qed.
+
+Lemma scope_offset_defined m s o : defined (scope_offset m s o).
+Proof. unfold scope_offset, wadd; cbn [bind]. apply defined_ok. Qed.
+
+Lemma read_prim_defined p c : cinv c -> defined (read_prim p c).
+Proof.
+  intros Hc. unfold read_prim. destruct (check_avail c (checked_avail p)) eqn:E; [|apply defined_err].
+  pose proof (prim_ok_all p) as Hp. unfold prim_ok in Hp. repeat rewrite andb_true_iff in Hp.
+  destruct Hp as [[[[[_ _] _] Hchk] _] _]. apply Z.eqb_eq in Hchk. rewrite Hchk in E.
+  pose proof (prim_size_pos p). destruct Hc as [Hc Hs].
+  apply check_avail_true in E; try lia. rewrite read_unchecked_ok by lia. apply defined_ok.
+Qed.
+
+Lemma read_ty_defined t c : cinv c -> defined (read_ty t c).
+Proof.
+  intros [Hc Hs]. unfold read_ty. destruct (check_avail c (ty_size t)) eqn:E; [|apply defined_err].
+  pose proof (ty_size_nonneg t). apply check_avail_true in E; try lia.
+  destruct (read_unchecked_ty_ok t c) as [vs ->]; try lia. apply defined_ok.
+Qed.
+
+Lemma read_scope_defined m c l : cinv c -> 0 <= l -> defined (read_scope m c l).
+Proof.
+  intros [Hc Hs] Hl. unfold read_scope.
+  destruct (offset_length m (sc c) (off c) l) eqn:E.
+  - assert (0 <= off c) as Ho by lia.
+    destruct (offset_length_ok _ _ _ _ _ Ho Hl E) as [[H1 _]|[-> [H1 _]]].
+    + unfold uadd, sinv in *. replace (off c + l <? USIZE) with true by lia. cbn [bind]. apply defined_ok.
+    + unfold uadd, sinv in *. replace (off c + 0 <? USIZE) with true by lia. cbn [bind]. apply defined_ok.
+  - apply defined_err.
+  - destruct (offset_length_defined m (sc c) (off c) l) as [[? H]|[? H]]; congruence.
+  - destruct (offset_length_defined m (sc c) (off c) l) as [[? H]|[? H]]; congruence.
+Qed.
+
+Lemma read_slice_defined m c l : cinv c -> 0 <= l -> defined (read_slice m c l).
+Proof.
+  intros Hc Hl. unfold read_slice. apply defined_bind; [apply read_scope_defined; assumption|].
+  intros [s c'] _. apply defined_ok.
+Qed.
+
+Lemma read_array_stride_defined m t c n st : cinv c -> 0 <= n -> 0 <= st ->
+  defined (read_array_stride m t c n st).
+Proof.
+  intros Hc Hn Hst. unfold read_array_stride. destruct (st <? ty_size t); [apply defined_err|].
+  unfold cmul. destruct (n * st <? USIZE); [|apply defined_err]. cbn [bind].
+  apply defined_bind; [apply read_scope_defined; [assumption|nia]|]. intros [s c'] _. apply defined_ok.
+Qed.
+
+Lemma window_read_defined t s :
+  ty_size t <= dlen s -> exists vs c, read_unchecked_ty t (ctxt_new s) = Ok (vs, c).
+Proof.
+  intros Hle. destruct (read_unchecked_ty_ok t (ctxt_new s)) as [vs Hvs]; cbn [ctxt_new off sc]; try lia.
+  eauto.
+Qed.
+
+Lemma arr_cell m a i :
+  ainv a -> sinv (a_sc a) -> 0 <= i < a_len a -> forall l, 0 <= l <= a_stride a ->
+  umul m i (a_stride a) = Ok (i * a_stride a) /\
+  exists s', offset_length m (a_sc a) (i * a_stride a) l = Ok s' /\ dlen s' = l.
+Proof.
+  intros [Hl [Hsz Hd]] Hs Hi l Hll. unfold sinv in Hs.
+  assert (0 <= i * a_stride a /\ i * a_stride a + a_stride a <= dlen (a_sc a)) as [H1 H2] by nia.
+  split.
+  - unfold umul. replace (i * a_stride a <? USIZE) with true by lia. reflexivity.
+  - apply offset_length_succeeds; lia.
+Qed.
+
+Lemma arr_get_defined m a i : ainv a -> sinv (a_sc a) -> 0 <= i -> defined (arr_get m a i).
+Proof.
+  intros Ha Hs Hi. unfold arr_get. destruct (i <? a_len a) eqn:E; [|apply defined_ok].
+  pose proof Ha as [Hl [Hsz Hd]].
+  destruct (arr_cell m a i Ha Hs ltac:(lia) (a_stride a) ltac:(lia)) as [Hm [s' [Hs' Hd']]].
+  rewrite Hm. cbn [bind]. rewrite Hs'.
+  destruct (window_read_defined (a_ty a) s') as [vs [c Hr]]; [lia|]. rewrite Hr. cbn [bind]. apply defined_ok.
+Qed.
+
+Lemma arr_read_item_defined m a i : ainv a -> sinv (a_sc a) -> 0 <= i -> defined (arr_read_item m a i).
+Proof.
+  intros Ha Hs Hi. unfold arr_read_item. destruct (i <? a_len a) eqn:E; [|apply defined_err].
+  pose proof Ha as [Hl [Hsz Hd]].
+  destruct (arr_cell m a i Ha Hs ltac:(lia) (ty_size (a_ty a)) ltac:(lia)) as [Hm [s' [Hs' Hd']]].
+  rewrite Hm. cbn [bind]. rewrite Hs'.
+  apply defined_bind.
+  - apply read_ty_defined. apply cinv_new. unfold sinv in *. nia.
+  - intros [v c] _. apply defined_ok.
+Qed.
+
+Lemma arr_read_item_ok m a i : ainv a -> sinv (a_sc a) -> 0 <= i < a_len a ->
+  exists v, arr_read_item m a i = Ok v.
+Proof.
+  intros Ha Hs Hi. unfold arr_read_item. replace (i <? a_len a) with true by lia.
+  pose proof Ha as [Hl [Hsz Hd]].
+  destruct (arr_cell m a i Ha Hs Hi (ty_size (a_ty a)) ltac:(lia)) as [Hm [s' [Hs' Hd']]].
+  rewrite Hm. cbn [bind]. rewrite Hs'. unfold read_ty.
+  replace (check_avail (ctxt_new s') (ty_size (a_ty a))) with true.
+  - destruct (window_read_defined (a_ty a) s') as [vs [c Hr]]; [lia|]. rewrite Hr. cbn [bind]. eauto.
+  - unfold check_avail, checked_add, ctxt_new, sinv in *; cbn [off sc].
+    replace (0 + ty_size (a_ty a) <? USIZE) with true by nia. lia.
+Qed.
+
+Lemma iter_next_defined m a idx : ainv a -> sinv (a_sc a) -> 0 <= idx <= a_len a ->
+  defined (iter_next m (a_sc a) (a_stride a) (a_ty a) idx).
+Proof.
+  intros [Hl [Hsz Hd]] Hs Hi. unfold iter_next, sinv in *.
+  assert (0 <= idx * a_stride a <= dlen (a_sc a)) as Ho by nia.
+  unfold umul. replace (idx * a_stride a <? USIZE) with true by lia. cbn [bind].
+  unfold scope_offset, wadd; cbn [bind].
+  match goal with |- defined (if ?b then _ else _) => destruct b eqn:E end; [|apply defined_ok].
+  apply check_avail_true in E; cbn [ctxt_new off sc] in *; try lia.
+  match goal with |- context [read_unchecked_ty ?t (ctxt_new ?s)] =>
+    destruct (window_read_defined t s) as [vs [c Hr]]; [lia|rewrite Hr] end.
+  cbn [bind]. apply defined_ok.
+Qed.
+
+Lemma iter_next_end m a : ainv a -> sinv (a_sc a) ->
+  iter_next m (a_sc a) (a_stride a) (a_ty a) (a_len a) = Ok None.
+Proof.
+  intros [Hl [Hsz Hd]] Hs. unfold iter_next, sinv in *. pose proof (dlen_nonneg (a_sc a)) as Hnn.
+  unfold umul. replace (a_len a * a_stride a <? USIZE) with true by lia. cbn [bind].
+  unfold scope_offset, wadd; cbn [bind].
+  unfold check_avail, checked_add, ctxt_new; cbn [off sc]. unfold dlen at 1; cbn [data].
+  rewrite slice_from_drop by (unfold dlen in *; lia). rewrite len_drop by (unfold dlen in *; lia).
+  destruct (0 + a_stride a <? USIZE); [|reflexivity].
+  replace (0 + a_stride a <=? len (data (a_sc a)) - a_len a * a_stride a) with false by (unfold dlen in *; lia).
+  reflexivity.
+Qed.
+
+Lemma iter_collect_defined m a : ainv a -> sinv (a_sc a) -> forall fuel idx,
+  0 <= idx <= a_len a -> defined (iter_collect fuel m (a_sc a) (a_stride a) (a_ty a) idx).
+Proof.
+  intros Ha Hs. induction fuel as [|f IH]; intros idx Hi; cbn [iter_collect]; [apply defined_ok|].
+  destruct (Z.eq_dec idx (a_len a)) as [->|Hne].
+  - rewrite iter_next_end by assumption. cbn [bind]. apply defined_ok.
+  - apply defined_bind; [apply iter_next_defined; assumption|]. intros [v|] _; [|apply defined_ok].
+    apply defined_bind; [apply IH; lia|]. intros; apply defined_ok.
+Qed.
+
+Lemma read_items_defined m a : ainv a -> sinv (a_sc a) -> forall fuel i,
+  0 <= i -> (Z.to_nat (a_len a - i) <= fuel)%nat -> defined (read_items_from fuel m a i).
+Proof.
+  intros Ha Hs. induction fuel as [|f IH]; intros i Hi Hf; cbn [read_items_from];
+    destruct (a_len a <=? i) eqn:E; try apply defined_ok; [lia|].
+  destruct (arr_read_item_ok m a i Ha Hs ltac:(lia)) as [v ->]. cbn [bind].
+  apply defined_bind; [apply IH; lia|]. intros; apply defined_ok.
+Qed.
+
+Lemma bsearch_defined m a f : ainv a -> sinv (a_sc a) -> forall fuel size left right,
+  0 <= left <= right -> right <= a_len a -> size = right - left -> (Z.to_nat size < fuel)%nat ->
+  defined (bsearch fuel m a f size left right).
+Proof.
+  intros Ha Hs. induction fuel as [|fu IH]; intros size left right Hlr Hr Hsize Hfuel; [lia|].
+  cbn [bsearch]. destruct (left <? right) eqn:E; [|apply defined_ok].
+  set (mid := left + size / 2).
+  assert (left <= mid < right) as Hmid by (unfold mid; subst size; nia).
+  pose proof Ha as [Hl [Hsz Hd]].
+  destruct (arr_cell m a mid Ha Hs ltac:(lia) (a_stride a) ltac:(lia)) as [Hm [s' [Hs' Hd']]].
+  rewrite Hm. cbn [bind]. rewrite Hs'.
+  destruct (window_read_defined (a_ty a) s') as [vs [c Hrd]]; [lia|]. rewrite Hrd. cbn [bind].
+  destruct (f vs); [apply defined_ok|apply IH; lia|apply IH; lia].
+Qed.
+
+Theorem rstep_total m st o :
+  rinv st -> op_wf o -> defined (snd (rstep m st o)).
+Proof.
+  intros [Hs [Hc [Ha Has]]] Hwf.
+  destruct o; cbn [rstep op_wf] in *; unfold arg_ok in *.
+  - pose proof (scope_offset_defined m (scp st) o) as [[s H]|[e H]]; rewrite H; cbn [snd]; [apply defined_ok|apply defined_err].
+  - pose proof (offset_length_defined m (scp st) o l) as [[s H]|[e H]]; rewrite H; cbn [snd]; [apply defined_ok|apply defined_err].
+  - cbn [snd]. apply defined_ok.
+  - unfold ctxt_scope. pose proof (scope_offset_defined m (sc (cur st)) (off (cur st))) as [[s H]|[e H]]; rewrite H; cbn [snd]; [apply defined_ok|apply defined_err].
+  - cbn [snd]. apply defined_ok.
+  - pose proof (read_prim_defined p _ Hc) as [[[v c] H]|[e H]]; rewrite H; cbn [snd]; [apply defined_ok|apply defined_err].
+  - pose proof (read_ty_defined t _ Hc) as [[[v c] H]|[e H]]; rewrite H; cbn [snd]; [apply defined_ok|apply defined_err].
+  - pose proof (read_scope_defined m _ l Hc (proj1 Hwf)) as [[[s c] H]|[e H]]; rewrite H; cbn [snd]; [apply defined_ok|apply defined_err].
+  - pose proof (read_slice_defined m _ l Hc (proj1 Hwf)) as [[[d c] H]|[e H]]; rewrite H; cbn [snd]; [apply defined_ok|apply defined_err].
+  - assert (defined (read_until_nibble m (cur st) n)) as Hd.
+    { unfold read_until_nibble. pose proof Hc as [Hc1 Hc2].
+      replace (off (cur st) <=? dlen (sc (cur st))) with true by lia.
+      destruct (find_nibble n (drop (off (cur st)) (data (sc (cur st)))) 0) eqn:Ef; [|apply defined_err].
+      apply find_nibble_range in Ef; [|lia]. rewrite len_drop in Ef by (unfold dlen in *; lia).
+      unfold uadd, sinv, dlen in *. replace (z + 1 <? USIZE) with true by lia. cbn [bind].
+      apply read_slice_defined; [assumption|lia]. }
+    destruct Hd as [[[d c] H]|[e H]]; rewrite H; cbn [snd]; [apply defined_ok|apply defined_err].
+  - rewrite read_array_is_stride.
+    pose proof (read_array_stride_defined m t (cur st) n (ty_size t) Hc (proj1 (proj1 Hwf)) (ty_size_nonneg t)) as [[[a c] H]|[e H]];
+      rewrite H; cbn [snd]; [apply defined_ok|apply defined_err].
+  - destruct Hwf as [Hw1 [Hw2 Hw3]].
+    pose proof (read_array_stride_defined m t (cur st) n stride Hc (proj1 Hw1) (proj1 Hw2)) as [[[a c] H]|[e H]];
+      rewrite H; cbn [snd]; [apply defined_ok|apply defined_err].
+  - assert (defined (read_array_upto_hack m t (cur st) n)) as Hd.
+    { unfold read_array_upto_hack. pose proof Hc as [Hc1 Hc2]. unfold usub.
+      replace (off (cur st) <=? dlen (sc (cur st))) with true by lia. cbn [bind].
+      replace (ty_size t =? 0) with false by lia.
+      rewrite read_array_is_stride. apply read_array_stride_defined; auto; [|lia].
+      assert (0 <= (dlen (sc (cur st)) - off (cur st)) / ty_size t) by (apply Z.div_pos; lia). lia. }
+    destruct Hd as [[[a c] H]|[e H]]; rewrite H; cbn [snd]; [apply defined_ok|apply defined_err].
+  - cbn [snd]. apply defined_ok.
+  - cbn [snd]. apply defined_bind; [apply arr_get_defined; auto; lia|]. intros; apply defined_ok.
+  - cbn [snd]. apply arr_read_item_defined; auto; lia.
+  - cbn [snd]. apply defined_bind; [|intros; apply defined_ok].
+    unfold arr_last. destruct (a_len (arr st) <? 1) eqn:E; [apply defined_ok|].
+    apply arr_get_defined; auto; lia.
+  - cbn [snd]. apply defined_bind; [|intros; apply defined_ok].
+    apply iter_collect_defined; auto. destruct Ha; lia.
+  - cbn [snd]. apply defined_bind; [|intros; apply defined_ok].
+    unfold iter_size_hint. destruct Ha as [_ [Hsz _]]. replace (a_stride (arr st) =? 0) with false by lia.
+    apply defined_ok.
+  - cbn [snd]. apply defined_bind; [|intros; apply defined_ok].
+    apply read_items_defined; auto; [lia|].
+    destruct Ha as [Hl [Hsz Hd]]. unfold dlen, len in Hd. rewrite Z.sub_0_r. nia.
+  - cbn [snd]. apply defined_bind; [|intros; apply defined_ok].
+    unfold arr_binary_search. pose proof Ha as [Hl [Hsz Hd]].
+    replace (a_len (arr st) <=? dlen (a_sc (arr st))) with true by nia.
+    apply bsearch_defined; auto; lia.
+Qed.
+
+Theorem rrun_total m ops : forall st,
+  rinv st -> Forall op_wf ops -> Forall (fun r => defined (fst r)) (rrun m st ops).
+Proof.
+  induction ops as [|o ops IH]; intros st Hinv Hwf; cbn [rrun]; [constructor|].
+  inversion Hwf as [|? ? Ho Hops]; subst.
+  destruct (rstep_inv m st o Hinv Ho) as [Hinv' _].
+  pose proof (rstep_total m st o Hinv Ho) as Hd.
+  destruct (rstep m st o) as [st' out] eqn:E. cbn [fst snd] in *.
+  constructor; [exact Hd|]. apply IH; assumption.
 Qed.
